@@ -43,9 +43,16 @@ func (c *Consistent) hashKey(key string) uint32 {
 
 // 添加一个节点
 func (c *Consistent) AddNode(node string) {
+	if c.nodes[node] {
+		return // 已经存在的节点不重复添加
+	}
 	for i := 0; i < ReplicaCount; i++ {
 		var replica = fmt.Sprintf("%s-%d", node, i)
-		c.circle[c.hashKey(replica)] = node
+		var key = c.hashKey(replica)
+		// hash冲突时保留原有节点，不抢占其它节点的虚拟节点
+		if _, found := c.circle[key]; !found {
+			c.circle[key] = node
+		}
 	}
 	c.nodes[node] = true
 	c.updateSortedHash()
@@ -55,7 +62,10 @@ func (c *Consistent) RemoveNode(node string) {
 	for i := 0; i < ReplicaCount; i++ {
 		var replica = fmt.Sprintf("%s-%d", node, i)
 		var key = c.hashKey(replica)
-		delete(c.circle, key)
+		// 只删除属于自己的虚拟节点（hash冲突时该位置可能属于其它节点）
+		if owner, found := c.circle[key]; found && owner == node {
+			delete(c.circle, key)
+		}
 	}
 	delete(c.nodes, node)
 	c.updateSortedHash()
